@@ -40,6 +40,29 @@ def build(spec, pose):
     return c
 
 
+def build_from(spec, T):
+    """Like build(), but the constructor receives the given (4, 4) array object itself (not a copy)."""
+    k = spec["kind"]
+    if k == "ellipsoid":
+        c = C.Ellipsoid(T, np.array(spec["radii"], dtype=float))
+    elif k == "capsule":
+        c = C.Capsule(T, float(spec["radius"]), float(spec["height"]))
+    elif k == "cylinder":
+        c = C.Cylinder(T, float(spec["radius"]), float(spec["length"]))
+    elif k == "cone":
+        c = C.Cone(T, float(spec["radius"]), float(spec["height"]))
+    elif k == "box":
+        c = C.Box(T, np.array(spec["size"], dtype=float))
+    elif k == "mesh":
+        c = C.MeshGraph(T, np.array(spec["vertices"], dtype=float).reshape(-1, 3),
+                        np.array(spec["triangles"], dtype=int).reshape(-1, 3))
+    else:
+        return build(spec, T)
+    if spec.get("margin"):
+        c = C.Margin(c, float(spec["margin"]))
+    return c
+
+
 def deliver(pose, how):
     """Legal deliveries of a pose (C14): a fresh C-contiguous array, or one matrix out of a stack of poses."""
     T = np.array(pose, dtype=float).reshape(4, 4)
@@ -194,11 +217,28 @@ class Exec:
     def run(self, op):
         k = op["op"]
         if k == "new":
-            self.slots[op["s"]] = {"spec": op["spec"], "pose": op["pose"], "obj": build(op["spec"], op["pose"])}
+            e = {"spec": op["spec"], "pose": op["pose"]}
+            if op.get("stack"):
+                # the caller's own stack of poses (never written to by the caller again); item 0 is handed to the
+                # constructor, items are handed to update_pose later ("pstack:k")
+                e["pstack"] = np.array(op["stack"], dtype=float).reshape(-1, 4, 4)
+                e["obj"] = build_from(op["spec"], e["pstack"][0])
+            elif op.get("share") is not None and op["share"] in self.slots and "ctor" in self.slots[op["share"]]:
+                e["ctor"] = self.slots[op["share"]]["ctor"]  # the very same array object as the other collider's
+                e["obj"] = build_from(op["spec"], e["ctor"])
+            else:
+                e["ctor"] = np.array(op["pose"], dtype=float).reshape(4, 4)
+                e["obj"] = build_from(op["spec"], e["ctor"])
+            self.slots[op["s"]] = e
             return {}
         if k == "pose":
             e = self._slot(op["s"])
-            if op.get("how") == "reuse":
+            if (op.get("how") or "").startswith("pstack"):
+                if "pstack" not in e:
+                    raise Skip()
+                T = e["pstack"][int(op["how"].split(":")[1])]
+                T2 = T
+            elif op.get("how") == "reuse":
                 # this collider's own slot of the caller's pose stack, refilled in place and handed over again
                 if "buf" not in e:
                     e["stack"] = np.zeros((3, 4, 4))
